@@ -159,7 +159,7 @@ def run(ctx):
         return
     if not ctx.go_build():
         return
-    n = {"compile": ctx.n(900, 20000), "requests": ctx.n(900, 20000), "tcp": ctx.n(600, 12000)}
+    n = {"compile": ctx.n(2500, 30000), "requests": ctx.n(2500, 30000), "tcp": ctx.n(1500, 15000)}
     for stream in STREAMS:
         ctx.diff_stream(stream, n[stream], oracle=oracle, nontrivial=nontrivial)
     for stream in STREAMS:
